@@ -1,0 +1,47 @@
+//go:build verif
+// +build verif
+
+// Pure re-exports for the verification harness (/verif, property C13).
+// No logic; compiled only with -tags verif.
+package blockchain
+
+import "time"
+
+// The unexported wire messages of the blockchain channel.
+type (
+	VerifBlockRequestMessage   = bcBlockRequestMessage
+	VerifBlockResponseMessage  = bcBlockResponseMessage
+	VerifStatusRequestMessage  = bcStatusRequestMessage
+	VerifStatusResponseMessage = bcStatusResponseMessage
+)
+
+// VerifSetPeerTimeoutSeconds sets the pool's per-peer response timeout (the
+// package keeps it in a variable "so we can override with tests").
+func VerifSetPeerTimeoutSeconds(n int64) { peerTimeoutSeconds = time.Duration(n) }
+
+// VerifPeerTimeoutSeconds returns the pool's per-peer response timeout.
+func VerifPeerTimeoutSeconds() int64 { return int64(peerTimeoutSeconds) }
+
+// VerifPool returns the reactor's block pool.
+func (bcR *BlockchainReactor) VerifPool() *BlockPool { return bcR.pool }
+
+// VerifHasBlock reports whether the requester of the given height currently
+// holds a fetched block.
+func (pool *BlockPool) VerifHasBlock(height int64) bool {
+	pool.mtx.Lock()
+	defer pool.mtx.Unlock()
+	r := pool.requesters[height]
+	return r != nil && r.getBlock() != nil
+}
+
+// VerifPeerHeights returns the peers currently known to the pool with their
+// alleged heights.
+func (pool *BlockPool) VerifPeerHeights() map[string]int64 {
+	pool.mtx.Lock()
+	defer pool.mtx.Unlock()
+	out := make(map[string]int64, len(pool.peers))
+	for id, p := range pool.peers {
+		out[id] = p.height
+	}
+	return out
+}
